@@ -88,14 +88,14 @@ def check_update(chk, prog, sim):
         chk.discharge(key)
 
 
-def check_setters(chk, prog, sim):
+def check_setters(chk, prog, sim, tag=""):
     names = state_fields(prog)
     table = {"set_constant_acceleration": ("acceleration", []), "set_constant_velocity": ("velocity", ["acceleration"]),
              "set_constant_position": ("position", ["velocity", "acceleration"])}
     for sname, (target, zeroed) in table.items():
         for raw in (False, True):
             fname = sname + ("_raw" if raw else "")
-            key = "S:State::" + fname
+            key = "S:State::" + fname + tag
             chk.obligation(key, "setter semantics of " + fname)
             fs = [f for f in prog.find_fns(name=fname, self_name="State") if not f.get("impl_trait")]
             if len(fs) != 1:
@@ -388,6 +388,15 @@ def run(chk):
     sim = S.Sim(prog)
     check_update(chk, prog, sim)
     check_setters(chk, prog, sim)
+    # the same setters with dimension checking compiled out (K4): a gate written with the assume-false family is invisible
+    # in K1 and rejects every argument there ("rejected" must mean "wrongly dimensioned", never "always")
+    p4 = load_config("K4")
+    chk.configs.append("K4")
+    before = len(chk.violations)
+    check_setters(chk, p4, S.Sim(p4), "@K4")
+    for v in chk.violations[before:]:
+        v["key"] += "@K4"
+        v["what"] = "[dimension checking compiled out] " + v["what"]
     check_command_from_state(chk, prog, sim)
     check_accessors(chk, prog, sim)
     check_arith(chk, prog, sim)
